@@ -730,6 +730,14 @@ impl emit_batcher::Channel for Channel {
     }
 
     fn push(&mut self, item: Self::Item) {
+        #[cfg(emit_rs_emit_verif)]
+        let item = ChannelItem {
+            max_request_size_bytes: crate::verif::max_request_size_bytes(
+                item.max_request_size_bytes,
+            ),
+            ..item
+        };
+
         let incoming_size_bytes = item.event.payload.len();
 
         // If the channel is empty or the current request is over its size limit then begin a new one
